@@ -357,4 +357,58 @@ theorem writeHeader_headerLike (c : WChart) (hl : List Bytes) (h : writeHeader c
         · exact Or.inr ⟨'B', _, rfl, by decide, by decide⟩
         · exact Or.inr ⟨'W', _, rfl, by decide, by decide⟩
 
+/-! ### (2) pairwise different positions in time order, from monotone snapping -/
+
+/-- `posFn` is monotone in the time (4/4 tempo list): a later time is never written at an earlier position -/
+theorem posFn_mono (cs : List BcSnap) (hwf : wfChanges cs = true) (hs : sortedSnaps cs = true)
+    (hgc : gridCompatible (grid defaultMaxDiv) cs = true) (hm4 : ∀ c ∈ cs, c.met = 4) (t1 t2 : Rat) (h0 : 0 ≤ t1) (h12 : t1 ≤ t2) :
+    (posFn cs t1).le (posFn cs t2) = true := by
+  have hg : GridOK defaultGrid := gridOK_grid (by decide)
+  have hgc' : gridCompatible defaultGrid.toList cs = true := by simpa [defaultGrid] using hgc
+  cases cs with
+  | nil => simp [posFn, Snap.le, Snap.eqv]
+  | cons c rest =>
+    obtain ⟨S1, S2, e1, e2, hle⟩ := snapAtAux_mono hg 4 rest 0 c t1 t2 hwf hs hgc' hm4 h0 h12
+    simp only [posFn, e1, e2, Except.toOption, Option.getD_some]
+    exact hle
+
+theorem snap_lt_of_le_ne {a b : Snap} (h : a.le b = true) (hne : ¬ (a.measure = b.measure ∧ a.beat = b.beat)) : a.lt b = true := by
+  simp only [Snap.le, Snap.lt, Snap.eqv, Bool.or_eq_true, Bool.and_eq_true, decide_eq_true_eq] at h ⊢
+  rcases h with h | h
+  · exact h
+  · exact absurd h hne
+
+theorem strictAsc_of_pairwise : ∀ (l : List Obj), l.Pairwise (fun a b => a.snap.lt b.snap = true) → strictAsc l = true
+  | [], _ => rfl
+  | [_], _ => rfl
+  | a :: b :: t, h => by
+    have h' := List.pairwise_cons.mp h
+    simp only [strictAsc, Bool.and_eq_true]
+    exact ⟨h'.1 b (by simp), strictAsc_of_pairwise (b :: t) h'.2⟩
+
+/-- **`hstrict` from the chart**: objects written for times listed in time order (`ts` ascending), no two of them on
+one slot (pairwise different positions), are in strictly ascending position order — snapping is monotone. -/
+theorem positions_strict (cs : List BcSnap) (hwf : wfChanges cs = true) (hs : sortedSnaps cs = true)
+    (hgc : gridCompatible (grid defaultMaxDiv) cs = true) (hm4 : ∀ c ∈ cs, c.met = 4)
+    (tv : List (Rat × Bytes)) (h0 : ∀ p ∈ tv, 0 ≤ p.1) (hasc : tv.Pairwise (fun a b => a.1 ≤ b.1))
+    (hdist : tv.Pairwise (fun a b => ¬ ((posFn cs a.1).measure = (posFn cs b.1).measure ∧ (posFn cs a.1).beat = (posFn cs b.1).beat))) :
+    strictAsc (tv.map (fun p => (⟨posOf (posFn cs p.1), p.2⟩ : Obj))) = true := by
+  apply strictAsc_of_pairwise
+  rw [List.pairwise_map]
+  have hboth := hasc.and hdist
+  have hall : tv.Pairwise (fun a b => 0 ≤ a.1) := by
+    induction tv with
+    | nil => exact List.Pairwise.nil
+    | cons x t ih =>
+      refine List.pairwise_cons.mpr ⟨fun y _ => h0 x (by simp), ?_⟩
+      exact ih (fun p hp => h0 p (by simp [hp])) (List.pairwise_cons.mp hasc).2 (List.pairwise_cons.mp hdist).2
+        ((List.pairwise_cons.mp hboth).2)
+  refine (hboth.and hall).imp ?_
+  intro a b hab
+  obtain ⟨⟨hle, hne⟩, ha0⟩ := hab
+  have := posFn_mono cs hwf hs hgc hm4 a.1 b.1 ha0 hle
+  have hlt := snap_lt_of_le_ne this hne
+  simp only [posOf, Snap.lt] at hlt ⊢
+  exact hlt
+
 end Reamber.BMS
